@@ -35,7 +35,7 @@ var c11Poisons = []c11poison{
 	{"fn-panic-typed-nil-error", nil, "service"}, {"fn-panic-error-whose-Error-panics", nil, "service"}, {"fn-panic-stringer-that-panics", nil, "service"},
 	{"raw-call-then-bad-frame", []string{"socket"}, "service"}, {"raw-call-then-close", []string{"socket", "websocket"}, "service"},
 	{"missing-panic", nil, "service"}, {"invoke-plugin-panic", nil, "service"}, {"io-plugin-panic", nil, "service"},
-	{"timeout-wrapped-panic", nil, "service"},
+	{"timeout-wrapped-panic", nil, "service"}, {"timeout-wrapped-late-panic", nil, "service"},
 	{"arg-type-mismatch", nil, "service"}, {"fewer-args", nil, "service"}, {"more-args", nil, "service"},
 	{"garbage-request", nil, "service"}, {"truncated-request", nil, "service"}, {"unknown-method", nil, "service"},
 	{"raw-short-header", []string{"socket", "udp"}, "service"}, {"raw-bad-crc", []string{"socket", "udp"}, "service"},
@@ -167,6 +167,15 @@ func scenC11(r *Run) {
 	if poison == "timeout-wrapped-panic" {
 		service.Use(timeout.New(5 * time.Second).Handler)
 	}
+	if poison == "timeout-wrapped-late-panic" {
+		// the function outlives its execution timeout and panics afterwards, when nobody waits for it any more
+		service.Use(timeout.New(100 * time.Millisecond).Handler)
+		service.AddFunction(func(k int) int {
+			time.Sleep(300 * time.Millisecond)
+			c11boom(k)
+			return k
+		}, "lateboom")
+	}
 	if poison == "too-large-request" {
 		service.MaxRequestLength = 2000
 	}
@@ -227,6 +236,11 @@ func scenC11(r *Run) {
 			pz = invoke(c1, "poison", "boom", k)
 		case "timeout-wrapped-panic":
 			pz = invoke(c1, "poison", "boom", pv)
+		case "timeout-wrapped-late-panic":
+			pz = invoke(c1, "poison", "lateboom", pv)
+			// let the function reach its panic before the run goes on
+			time.Sleep(400 * time.Millisecond)
+			verifsim.ForceYield(-13)
 		case "missing-panic":
 			pz = invoke(c1, "poison", "missboom", 1)
 		case "invoke-plugin-panic":
